@@ -675,3 +675,36 @@ func vCheckVerdictC17(rq *vRequest, err error) {
 		vAssert(err != nil, "C17/waiting-setter-succeeded-without-ack")
 	}
 }
+
+func init() { vEntries["VH_ClientCloseConcurrent"] = VH_ClientCloseConcurrent }
+
+// VH_ClientCloseConcurrent: Close from several goroutines at once.
+func VH_ClientCloseConcurrent() {
+	s := newSim()
+	s.plain = true
+	c := &AuditClient{Netlink: s}
+	usePID := vChoose("setpid", 2) == 1
+	if usePID {
+		c.SetPID(NoWait)
+	}
+	before := len(s.reqs)
+	n := vParam("threads", 2)
+	errs := make([]error, n)
+	for i := 0; i < n; i++ {
+		i := i
+		vGo(func() { errs[i] = c.Close() })
+	}
+	vJoin()
+	vAssert(s.closed == 1, "C17/socket-not-closed-exactly-once")
+	sent := s.reqs[before:]
+	if usePID {
+		vAssert(len(sent) == 1, "C17/close-did-not-clear-pid-exactly-once")
+	} else {
+		vAssert(len(sent) == 0, "C17/close-sent-request-without-setpid")
+	}
+	for i := 0; i < n; i++ {
+		vAssert(errs[i] == nil, "C17/close-returned-error")
+	}
+	// later calls are no-ops
+	vAssert(c.Close() == nil && s.closed == 1 && len(s.reqs) == before+len(sent), "C17/later-close-not-a-no-op")
+}
